@@ -375,7 +375,7 @@ Theorem vol_write_run_refines : forall run im fi l i r im' fi' l',
     NoDup news /\ (forall x, In x news -> 2 <= x < total + 2 /\ fat_val g im x = FFree) /\
     (forall x, 2 <= x < total + 2 -> ~ In x news -> (news = [] \/ x <> last l 0) -> fat_val g im' x = fat_val g im x) /\
     (forall a, ~ in_store_area g a -> (forall c, In c l' -> ~ in_cluster g c a) -> img_get im' a = img_get im a) /\
-    (news = [] -> forall a, (forall c, In c l -> ~ in_cluster g c a) -> img_get im' a = img_get im a) /\
+    (news = [] -> fi' = fi /\ forall a, (forall c, In c l -> ~ in_cluster g c a) -> img_get im' a = img_get im a) /\
     count_free g im' + N.of_nat (length news) = count_free g im /\
     write_run (Chained cs) (length news) (chain_dir_slots g im l) i run = (r, chain_dir_slots g im' l') /\
     (r = Ok tt \/ (r = Err ENotEnoughSpace /\ forall x, 2 <= x < total + 2 -> fat_val g im' x <> FFree)).
@@ -383,7 +383,7 @@ Proof.
   induction run as [|s run IH]; intros im fi l i r im' fi' l' HI Hi Hlen Hby H; cbn [vol_write_run] in H.
   { injection H as <- <- <- <-. exists []. rewrite app_nil_r. cbn [length write_run N.of_nat].
     split; [reflexivity|]. split; [exact HI|]. split; [constructor|]. split; [intros x []|].
-    split; [reflexivity|]. split; [reflexivity|]. split; [reflexivity|]. split; [lia|]. split; [reflexivity|left; reflexivity]. }
+    split; [reflexivity|]. split; [reflexivity|]. split; [split; reflexivity|]. split; [lia|]. split; [reflexivity|left; reflexivity]. }
   inversion Hlen as [|? ? Ls Hlen']; subst. inversion Hby as [|? ? Bs Hby']; subst.
   pose proof (fixed_root_vgeom_ok g (proj1 Hg)) as Hok.
   destruct HI as [Hb Hfi Hch Hlk].
@@ -417,7 +417,7 @@ Proof.
       destruct (N.lt_ge_cases a (slot_off g l i + 32)) as [L2|L2]; [|right; exact L2].
       exfalso. apply (Hnc c0); [rewrite E1; apply in_or_app; left; exact Hc0|unfold in_cluster; lia]. }
     split.
-    { intros En a Hnc. rewrite (Hfr0 En a Hnc). apply Hout2.
+    { intros En. split; [exact (proj1 (Hfr0 En))|]. intros a Hnc. rewrite (proj2 (Hfr0 En) a Hnc). apply Hout2.
       destruct (N.lt_ge_cases a (slot_off g l i)) as [L|L]; [left; exact L|].
       destruct (N.lt_ge_cases a (slot_off g l i + 32)) as [L2|L2]; [|right; exact L2].
       exfalso. apply (Hnc c0 Hc0). unfold in_cluster. lia. }
@@ -433,7 +433,7 @@ Proof.
     destruct (vol_alloc_dir_cluster g im fi (last l 0)) as [[[im1 fi1] c]|e| |]; [| |contradiction|contradiction].
     2:{ destruct HA as [-> Hfull]. injection H as <- <- <- <-. exists []. rewrite app_nil_r. cbn [length N.of_nat].
         split; [reflexivity|]. split; [split; assumption|]. split; [constructor|]. split; [intros x []|].
-        split; [reflexivity|]. split; [reflexivity|]. split; [reflexivity|]. split; [lia|]. split.
+        split; [reflexivity|]. split; [reflexivity|]. split; [split; reflexivity|]. split; [lia|]. split.
         - cbn [write_run]. rewrite Lss. replace (Nat.ltb (cs * length l) (cs * length l)) with false by (symmetry; apply Nat.ltb_ge; lia).
           reflexivity.
         - right. split; [reflexivity|exact Hfull]. }
@@ -906,6 +906,73 @@ Proof.
 Qed.
 End Bridge.
 
+(* ---- the slot layer's NotEnoughSpace of a chain directory that cannot grow, exactly: what was written is the prefix of the run
+   that filled the free tail; the decoder finds the same entries and labels; it reports ONE orphan run (at the end of the
+   directory) when something was written and nothing otherwise *)
+Lemma failed_write_chain_exact cs fat32 ss n e es ls ss' :
+  dir_scan ss 0 [] fat32 = (es, ls, []) -> len_N ss < 134217728 ->
+  write_entry (Chained cs) 0 ss n e = (Err ENotEnoughSpace, ss') -> length ss' = length ss ->
+  (ss' = ss /\ dir_scan ss' 0 [] fat32 = (es, ls, [])) \/
+  (ss' <> ss /\ dir_scan ss' 0 [] fat32 = (es, ls, [DOrphanLfn (len_N ss)]) /\ 1 < len_N (entry_run n e) /\
+   exists p, find_free_entries (Chained cs) ss (len_N (entry_run n e)) = Ok p /\ p < len_N ss).
+Proof.
+  intros H0 Hb H Hlen.
+  destruct (write_entry_cases (Chained cs) 0 ss n e Hb) as [[rg [s1 E]]|[[x [V E]]|[[K _]|C4]]].
+  - rewrite E in H. discriminate.
+  - rewrite E in H. injection H as -> <-. left. split; [reflexivity|exact H0].
+  - discriminate.
+  - destruct C4 as [cs0 [p [pre [mid [post [j [K [V [S [J [_ [Ef E]]]]]]]]]]]]. rewrite E in H. injection H as <-.
+    destruct S as [S1 S2 S3 S4 S5].
+    set (lf := map lfn_encode (write_entry_lfn_slots n (se_name e))) in *.
+    assert (entry_run n e = lf ++ [sfn_encode e]) as Erun by reflexivity.
+    destruct (entry_lfn_run_valid n (se_name e) V) as [R1 [_ [_ [_ R5]]]]. fold lf in R1, R5.
+    destruct (run_valid_starts lf _ R1) as [Rn _].
+    assert (length (entry_run n e) = S (length lf)) as ElenN by (rewrite Erun, app_length; cbn [length]; lia).
+    assert (firstn j (entry_run n e) = firstn j lf) as Efj.
+    { rewrite Erun, firstn_app. replace (j - length lf)%nat with 0%nat by lia. cbn [firstn]. apply app_nil_r. }
+    rewrite Efj in *.
+    assert (j = length (mid ++ post)) as Ej.
+    { rewrite S1, !app_length, firstn_length in Hlen. rewrite app_length in J |- *. lia. }
+    assert (post = [] \/ exists z r, post = z :: r /\ zfirst z) as Hpost.
+    { destruct S5 as [C|[_ C]]; [|exact C]. exfalso. rewrite app_length in J. unfold len_N in C. lia. }
+    pose proof H0 as H0'. rewrite S1 in H0'. rewrite scan_app in H0' by exact S3.
+    destruct (scan_pre pre 0 [] fat32) as [[[es1 ls1] iss1] pd] eqn:Epre.
+    destruct (dir_scan (mid ++ post) (0 + len_N pre) pd fat32) as [[es2 ls2] iss2] eqn:E2.
+    injection H0' as Q1 Q2 Q3. apply app_eq_nil in Q3. destruct Q3 as [-> ->].
+    assert (pd = []) as ->.
+    { eapply no_issue_free_head; [exact E2|]. destruct mid as [|m0 mid'].
+      - cbn [app]. destruct Hpost as [->|[z [r [-> Hz]]]]; [left; reflexivity|right; exists z, r; split; [reflexivity|left; exact Hz]].
+      - right. exists m0, (mid' ++ post). split; [reflexivity|right]. inversion S4; assumption. }
+    rewrite scan_deleted in E2 by exact S4.
+    assert (Forall zfirst post /\ es2 = [] /\ ls2 = []) as [Hz [-> ->]].
+    { destruct Hpost as [->|[z [r [-> Hz]]]].
+      - cbn [dir_scan] in E2. inversion E2. repeat split; constructor.
+      - eapply no_issue_after_end; [exact Hz|exact E2]. }
+    rewrite !app_nil_r in *. subst es1 ls1.
+    assert (dir_scan (pre ++ firstn j lf) 0 [] fat32 =
+            (es, ls, match rev (firstn j lf) with [] => [] | _ => [DOrphanLfn (0 + len_N pre + len_N (firstn j lf))] end)) as Hscan.
+    { rewrite scan_app by exact S3. rewrite Epre. rewrite <- (app_nil_r (firstn j lf)).
+      rewrite scan_run by (first [apply lfn_live_like; apply LfnProofs.Forall_firstn'; exact R5|apply Forall_tl_firstn; exact Rn]).
+      cbn [dir_scan]. rewrite !app_nil_r. cbn [app]. reflexivity. }
+    remember (mid ++ post) as tl0 eqn:Etail in *. symmetry in Etail. destruct tl0 as [|t0 tail].
+    + left. cbn [length] in Ej. subst j. cbn [firstn] in *. rewrite app_nil_r in *. subst ss. split; [reflexivity|].
+      cbn [rev] in Hscan. exact Hscan.
+    + right. cbn [length] in Ej.
+      destruct lf as [|f lf']; [cbn [length] in *; lia|]. destruct j as [|j']; [lia|]. cbn [firstn] in *.
+      assert (free_slot t0) as Ht0.
+      { assert (In t0 (mid ++ post)) as Hin by (rewrite Etail; left; reflexivity). apply in_app_or in Hin. destruct Hin as [Hin|Hin].
+        - right. rewrite Forall_forall in S4. exact (S4 _ Hin).
+        - left. rewrite Forall_forall in Hz. exact (Hz _ Hin). }
+      inversion R5 as [|? ? [_ [F0 [F5 _]]] _]; subst.
+      split; [|split; [|split]].
+      * intros C. apply app_inv_head in C. injection C as C _. subst t0. destruct Ht0; contradiction.
+      * rewrite Hscan. cbn [rev]. destruct (rev (firstn j' lf') ++ [f]) eqn:Er; [destruct (rev (firstn j' lf')); discriminate|].
+        f_equal. f_equal. f_equal. unfold len_N. rewrite !app_length. cbn [length]. rewrite firstn_length.
+        cbn [length] in *. lia.
+      * unfold len_N. rewrite ElenN. cbn [length]. lia.
+      * exists (len_N pre). split; [exact Ef|]. unfold len_N. rewrite app_length. cbn [length]. lia.
+Qed.
+
 (* ================================================================ 5. create_file with growth *)
 Section GrowThm.
 Variable upper : N -> list N.
@@ -918,14 +985,14 @@ Definition GrowStep (im : image) (fi : fsinfo) (l : list N) (im' : image) (fi' :
   (forall x, In x news -> 2 <= x < g_clusters g + 2 /\ fat_val g im x = FFree) /\
   (forall x, 2 <= x < g_clusters g + 2 -> ~ In x news -> (news = [] \/ x <> last l 0) -> fat_val g im' x = fat_val g im x) /\
   (forall a, ~ in_store_area g a -> (forall c, In c l' -> ~ in_cluster g c a) -> img_get im' a = img_get im a) /\
-  (news = [] -> forall a, (forall c, In c l -> ~ in_cluster g c a) -> img_get im' a = img_get im a) /\
+  (news = [] -> fi' = fi /\ forall a, (forall c, In c l -> ~ in_cluster g c a) -> img_get im' a = img_get im a) /\
   count_free g im' + N.of_nat (length news) = count_free g im.
 
 Lemma grow_step_refl im fi l : GInv (parse_geom im) im fi l -> GrowStep im fi l im fi l [].
 Proof.
   intros HI. unfold GrowStep. cbv zeta. rewrite app_nil_r. cbn [length N.of_nat].
   split; [reflexivity|]. split; [exact HI|]. split; [constructor|]. split; [intros x []|].
-  split; [reflexivity|]. split; [reflexivity|]. split; [reflexivity|]. lia.
+  split; [reflexivity|]. split; [reflexivity|]. split; [split; reflexivity|]. lia.
 Qed.
 
 Theorem grow_create_unfold im fi l name now r im' fi' l' :
@@ -1128,7 +1195,7 @@ Proof.
   split; [rewrite <- Esfn, <- Ech in HU; exact HU|].
   rewrite Habs', (df_abs _ _ _ _ _ _ _ _ _ _ _ _ _ DF). fold g. cbn [abs_fixed v_root_issues v_labels v_geom v_status].
   split; [reflexivity|]. split; [reflexivity|]. split; [reflexivity|]. split; [exact Hstat|].
-  split; [exact Hfat|]. split; [exact Hfr|]. split; [exact Hfr0|]. split.
+  split; [exact Hfat|]. split; [exact Hfr|]. split; [exact (fun En => proj2 (Hfr0 En))|]. split.
   { intros c Rc Hn. unfold cluster_bytes. apply VolDirProofs.img_read_ext. intros i Hi. apply Hfr.
     - apply (in_cluster_not_store g (proj1 Hg) c); [lia|unfold in_cluster; lia].
     - intros c' Hc' Hin. destruct Hck' as [_ Hr]. rewrite Forall_forall in Hr. specialize (Hr c' Hc').
